@@ -219,6 +219,14 @@ impl Runner for PacketRunner {
                             if !consistent || ad.len() != 39 + n || 39 + n + p.message.len() != data.len() {
                                 out.push("!MON C05 inconsistent-auth-size-accepted".into());
                             }
+                            // whatever follows signature and key inside the auth-data of a handshake is
+                            // the sender's record: a handshake with such bytes and "no record" has
+                            // swallowed them
+                            if let PacketKind::Handshake { id_nonce_sig, ephem_pubkey, enr_record, .. } = &p.kind {
+                                if consistent && n > 34 + id_nonce_sig.len() + ephem_pubkey.len() && enr_record.is_none() {
+                                    out.push("!MON C05 handshake-auth-data-surplus-accepted-without-record".into());
+                                }
+                            }
                         }
                         out.push(format!(
                             "ok {} {} {} {} {}",
